@@ -1,10 +1,14 @@
 package main
 
 import (
+	"bytes"
+	"fmt"
 	"io/ioutil"
 	"os"
 	"sort"
+	"strconv"
 	"strings"
+	"sync"
 
 	"github.com/brutella/hc/db"
 	"github.com/brutella/hc/util"
@@ -46,6 +50,34 @@ func runStorage(id string, toks []string) (res string) {
 	for _, t := range toks[1:] {
 		p := strings.Split(t, ":")
 		switch p[0] {
+		case "CS":
+			// CS:<key>:<v1>:<v2>:<rounds>  two goroutines set the key at the same time, round after round: both sets succeed and
+			// the key holds one of the two values, in full
+			key, v1, v2 := string(unhex(p[1])), unhex(p[2]), unhex(p[3])
+			rounds, _ := strconv.Atoi(p[4])
+			res := "cs=ok"
+			for r := 0; r < rounds && res == "cs=ok"; r++ {
+				var wg sync.WaitGroup
+				errs := make([]error, 2)
+				for i, v := range [][]byte{v1, v2} {
+					wg.Add(1)
+					go func(i int, v []byte) {
+						defer wg.Done()
+						errs[i] = st.Set(key, v)
+					}(i, v)
+				}
+				wg.Wait()
+				got, err := st.Get(key)
+				switch {
+				case errs[0] != nil || errs[1] != nil:
+					res = fmt.Sprintf("cs=set-error@%d", r)
+				case err != nil:
+					res = fmt.Sprintf("cs=not-found@%d", r)
+				case !bytes.Equal(got, v1) && !bytes.Equal(got, v2):
+					res = fmt.Sprintf("cs=mixture@%d:%d_bytes", r, len(got))
+				}
+			}
+			out = append(out, res)
 		case "S":
 			if err := st.Set(string(unhex(p[1])), unhex(p[2])); err != nil {
 				out = append(out, "s=err")
